@@ -6,14 +6,36 @@ def spec(tier):
            KN(name="jitter", func="vf.kernels.c20:jitter", args=dict(tier=tier), timeout=300),
            KN(name="sample_seed", func="vf.kernels.c20:sample_seed", args=dict(), timeout=300),
            KN(name="tool_columns", func="vf.kernels.c20:tool_columns", args=dict(tier=tier), timeout=600)]
+    obs.append(KN(name="jitter_hashseed", func="vf.kernels.c20:jitter_hashseed", args=dict(tier=tier), timeout=600))
+    th = tier == "thorough"
+    # Engine A: real snap_command / jitter_command on a trace with symbolic structure (in-memory files, stub generator)
+    base = dict(tool=0, n=3, k1=1, k2=2, k3=3, a1=1, a2=1, a3=1, f1=0, f2=0, f3=0, di=1, ri=0, blank_mem=True)
+
+    def tt(name, sym, timeout=600, **fx):
+        f = dict(base)
+        f.update(fx)
+        for k in sym:
+            f.pop(k, None)
+        obs.append(CH(name=name, harness="c20.tools_trace", sym=sym, fixed=f, timeout=timeout))
+    amax = 7 if th else 5
+    tt("snap_trace_arrivals", dict(a1=I(0, amax), a2=I(0, amax), ri=I(0, 3)), tool=0, a3=2)
+    tt("snap_trace_shape", dict(n=I(1, 3), k1=I(1, 3), k2=I(1, 3), k3=I(1, 3), blank_mem=B), tool=0, a1=4, a2=1, a3=5, ri=1)
+    tt("jitter_trace_arrivals", dict(a1=I(0, amax), a2=I(0, amax), di=I(0, 3)), tool=1, f1=3, f2=0, f3=2, a3=2)
+    tt("jitter_trace_arrivals_b", dict(a2=I(0, amax), a3=I(0, amax), f2=I(0, 3)), tool=1, f1=1, f3=2, a1=3, di=2)
+    tt("jitter_trace_draws", dict(f1=I(0, 3), f2=I(0, 3), f3=I(0, 3), di=I(0, 3)), tool=1, a1=4, a2=3, a3=1)
+    tt("jitter_trace_shape", dict(n=I(1, 3), k1=I(1, 3), k2=I(1, 3), k3=I(1, 3), blank_mem=B), tool=1, a1=5, a2=3, a3=1, f1=0, f2=1, f3=3, di=2)
+    tsym = dict(a1=I(0, 5), a2=I(0, 5), f1=I(0, 3), f2=I(0, 3))
+    obs.append(twin("tools_reordered", "c20.tools_trace", tsym, {**{k: v for k, v in base.items() if k not in tsym}, "tool": 1, "di": 2}, "reordered"))
+    obs.append(twin("tools_tie", "c20.tools_trace", tsym, {**{k: v for k, v in base.items() if k not in tsym}, "tool": 1, "di": 2}, "tie"))
+    obs.append(twin("tools_moved", "c20.tools_trace", tsym, {**{k: v for k, v in base.items() if k not in tsym}, "tool": 0, "ri": 0}, "moved"))
     return PropSpec(
         property_id="C20", obligations=obs,
-        functions=["tools.snap_command", "tools.jitter_command", "tools._sensitivity_task", "WorkloadGenerator.__init__"],
+        functions=["tools.snap_command", "tools.jitter_command", "tools.snap_command/jitter_command (whole command, in-memory files: c20.tools_trace)", "tools._sensitivity_task", "WorkloadGenerator.__init__"],
         bounds={"snap": "arrival*tps in [0,1e7]; never-up / less-than-a-tick for all tps in [1,1e5] (RLX, symbolic rate); on-grid and idempotence per listed tick rate (RLX + monotone rounding)",
-                "jitter": "arrival in [0,1e7], delta in [0,1e6], every draw in [0,delta] (RLX)", "seeds": "start_seed+i: AST data-flow + run of the real function with the heavy parts stubbed"},
+                "jitter": "arrival in [0,1e7], delta in [0,1e6], every draw in [0,delta] (RLX)", "tools_trace": "1-3 pipelines x 1-3 operator rows, arrivals from a dyadic menu of 6 (8) incl. ties and descending order, delta in {0, 0.5, 2, 8}, draw in {0, 1/4, 1/2, 1} x delta per pipeline, tick rate in {1, 2, 4, 8}; identifiers p1, p10, p2 (string order differs from file order)", "seeds": "start_seed+i: AST data-flow + run of the real function with the heavy parts stubbed"},
         outside=["tick rates not in the per-rate list for the exact on-grid / idempotence clauses (the list is in the evidence)", "the CSV text <-> float conversion of cells (CPython C code, M8)",
                  "multiprocessing.Pool dispatch of sensitivity-sample (only the per-task function is analysed)"],
-        assumptions=["M10 RLX relative-error model, strengthened with monotonicity of rounding (sound for round-to-nearest)", "M4: rng.uniform(0, delta) returns a value in [0, delta]"],
+        assumptions=A_ASSUME + ["tools_trace: tools.open / tools.Path replaced by an in-memory file system, numpy.random.default_rng by a scripted stub (M4); csv cells cross C code and are concrete per path (M8)", "M10 RLX relative-error model, strengthened with monotonicity of rounding (sound for round-to-nearest)", "M4: rng.uniform(0, delta) returns a value in [0, delta]"],
         explanation=("Engine B: the statements that compute `snapped` and `jittered` are extracted from tools.py with ast and evaluated path by path over the RLX domain: snap never moves an "
                      "arrival up, moves it by less than one tick, leaves on-grid times (k/tps) unchanged and is idempotent (unsat for every listed rate); a bit-exact FPX search produces "
                      "counterexamples when a proof fails (0.29@100 on the unrepaired tree).  jitter: result in [a, a+delta] for any draw in [0, delta].  Real snap/jitter/_sensitivity_task "
